@@ -1171,7 +1171,7 @@ class SignThenValidate:
                                h1=b'\x02' * 32, pos1=0)
 
 
-VALIDATE_KINDS = (('claim', False), ('update', False), ('support', False), ('claim', True))
+VALIDATE_KINDS = (('claim', False), ('update', False), ('support', False), ('claim', True), ('parsed', False))
 
 
 @proof("C04", "channel.validate")
@@ -1191,7 +1191,14 @@ class Validate:
     def run(kinds, pub, signature, chash, payload, holder, h0, pos0, h1, pos1):
         kind, legacy = kinds
         channel = channel_publishing(pub)
-        txo = make_signable_output(kind, b'current-message' if legacy else payload, b'\x33' * 20, holder)
+        if kind == 'parsed':
+            # an object PARSED from stored bytes whose content was changed afterwards: what counts is the message it would
+            # serialise NOW (to_message_bytes at validation time), not the bytes seen when it was parsed
+            parsed = EnvelopeClaim.from_bytes(envelope_spec(chash, signature, b'message at parse time'))
+            txo = Output.pay_claim_name_pubkey_hash(1000, 'stream', parsed, holder)
+            parsed.message.payload = payload
+        else:
+            txo = make_signable_output(kind, b'current-message' if legacy else payload, b'\x33' * 20, holder)
         s = txo.signable
         s.signature = signature
         s.signing_channel_hash = chash
@@ -1775,7 +1782,8 @@ class RealChannelSign:
     """BOUNDED stand-in with real protobuf claims and real channel keys: Output.sign, serialisation, re-parsing, is_signed_by, the
     independent verification of the stored envelope - and EVERY single-bit mutation of the message, of the channel hash, of the
     signature and of the first input's outpoint, another channel key, a channel with the same name but another key, exchanged
-    inputs, an out-of-range signature and an API-level content change stop validating"""
+    inputs, an out-of-range signature and an API-level content change (on the signing object and on the object PARSED from the
+    published transaction) stop validating"""
     bounded_only = True
     note = "9 signed objects (rich stream, repost, collection, support, update, empty stream; stream, support and repost whose " \
            "message carries fields unknown to this release's schema) x channels that are new claims at index 0..2 or updates x " \
@@ -1806,6 +1814,27 @@ class RealChannelSign:
         script = outs[1][1]
         env = signable_bytes_of(script)
         at = script.find(env)
+        # the PARSED object changed through the typed API: it must stop validating, it serialises differently, and the old
+        # signature does not verify (independent verifier) for the message it serialises now
+        parsed = reparsed_output(version, ins, outs, locktime, 1)
+        if parsed.is_support:
+            parsed.support.comment = 'changed after parsing'
+        elif parsed.claim.is_stream:
+            parsed.claim.stream.title = 'changed after parsing'
+        elif parsed.claim.is_repost:
+            parsed.claim.repost.tags.append('changed after parsing')
+        else:
+            parsed.claim.collection.tags.append('changed after parsing')
+        if validates(parsed, seen):
+            problems.append('still validates after: a field of the parsed object changed through the API')
+        parsed.script.generate()
+        now = signable_bytes_of(bytes(parsed.script.source))
+        if bytes(parsed.script.source) == script or now[85:] == env[85:] or now[:85] != env[:85]:
+            problems.append('the changed parsed object does not serialise as old envelope head + changed message')
+        if 'channel signature does not verify (independent verifier)' not in channel_signature_problems(
+                enc_tx(version, ins, [outs[0], (outs[1][0], bytes(parsed.script.source))], locktime), 1, pub_of(secret),
+                channel_claim_hash_independent(channel, updated_id)):
+            problems.append('independent verifier accepts the old signature for the changed message')
         regions = dict(message=(at + 85, len(env) - 85), channel_hash=(at + 1, 20), signature=(at + 21, 64))
         survivors = []
         if kind.endswith('+unknown') and not env.endswith(UNKNOWN_FIELDS):
